@@ -15,7 +15,12 @@ import (
 	"golang.org/x/tools/go/ssa/ssautil"
 )
 
-const repoDir = "/repo"
+var repoDir = func() string {
+	if d := os.Getenv("VERIF_REPO"); d != "" {
+		return d
+	}
+	return "/repo"
+}()
 const modPath = "github.com/daeuniverse/dae"
 
 func loadWorld(patterns []string, overlay map[string][]byte) (*World, error) {
